@@ -6,6 +6,7 @@ import (
 	"fmt"
 	"go/types"
 	"sort"
+	"os"
 	"strconv"
 	"strings"
 	"sync"
@@ -1136,6 +1137,21 @@ func (p *Path) nativeMethod(bn *boundNative, args []Value) Value {
 }
 
 func (p *Path) logCall(method string, args []Value) {
+	if p.eng.traceOn {
+		line := "LOG " + method
+		for _, a := range args {
+			if sl, ok := a.(Slice); ok {
+				for _, e := range sl.A {
+					s, _ := p.formatValue('v', e, "")
+					line += " " + s.C
+				}
+				continue
+			}
+			s, _ := p.formatValue('v', a, "")
+			line += " " + s.C
+		}
+		fmt.Fprintln(os.Stderr, line)
+	}
 	// logger arguments are observables for the secrecy property (C15); kept per path
 	p.logArgs = append(p.logArgs, args...)
 }
